@@ -361,7 +361,7 @@ def fixed_lostLastAck : List Op :=
     .egress, .read 1 8]
 
 /-- The code as committed in /repo after all repairs of this area (seven flags; `fixOrphanTimeout`
-    was judged unsafe by the integrator and stays off). -/
+    was not adopted by the integrator and stays off). -/
 def cfgCommitted : Cfg :=
   { fixReack := true, fixWinUpdate := true, fixHsReset := true, fixRstAfterClose := true, fixReapOrphan := true,
     fixQuietClose := true, fixSynWindow := true }
